@@ -535,5 +535,39 @@ def r15_13(ctx):
     return r
 
 
+_SHRINKS = ("truncate", "pop", "drain", "clear", "remove", "swap_remove", "retain", "split_off", "set_len", "dedup")
+
+
+def r15_14(ctx):
+    """'setting a header extension ... leaves other extensions intact': set_extension rebuilds the element list into a
+    fresh buffer - every existing element copied verbatim (padding skipped), the new one appended. Element VALUES may
+    contain and end in zero bytes (a transport-cc number 0x0100, an audio level 0, an abs-send-time with a zero low
+    byte); once copied, nothing may be taken off the buffer again: zero bytes at its end are data, not padding.
+    Decided: the rebuilt buffer of set_extension is only ever appended to (no truncate / pop / drain / clear / ...)."""
+    r = RuleResult("R15.14", "K3", "set_extension never shortens the rebuilt element list")
+    b = ctx.body("rtp::RtpHeader::set_extension")
+    r.scope.append(b.name)
+    grows, shrinks = [], []
+    for bi, t, p in b.calls():
+        if not p or not t["a"] or bi in b.cleanup:
+            continue
+        a0 = b.term_operand(t["a"][0])
+        if not (a0[0] == "var" and a0[1] == "new_data"):
+            continue
+        m = p.split("::")[-1]
+        if m in ("push", "extend_from_slice", "extend", "resize"):
+            grows.append(bi)
+        elif m in _SHRINKS:
+            shrinks.append((bi, m))
+    r.need("appends to the rebuilt extension buffer", len(grows), 3)
+    for bi, m in shrinks:
+        r.violate(b.name, "ext:shrunk:%s" % m, b.where(bi),
+                  "the rebuilt extension buffer is shortened (%s) after existing elements were copied into it: trailing zero bytes there are the "
+                  "value of the last element, not padding - that element is corrupted and the appended one unreadable" % m)
+    if not shrinks:
+        r.ok({"buffer": "new_data", "appends": len(grows), "shrinking calls": 0})
+    return r
+
+
 def run(ctx):
-    return [r15_1(ctx), r15_2(ctx), r15_3(ctx), r15_4(ctx), r15_5(ctx), r15_6(ctx), r15_7(ctx), r15_8(ctx), r15_9(ctx), r15_10(ctx), r15_11(ctx), r15_12(ctx), r15_13(ctx)]
+    return [r15_1(ctx), r15_2(ctx), r15_3(ctx), r15_4(ctx), r15_5(ctx), r15_6(ctx), r15_7(ctx), r15_8(ctx), r15_9(ctx), r15_10(ctx), r15_11(ctx), r15_12(ctx), r15_13(ctx), r15_14(ctx)]
